@@ -9,7 +9,7 @@
    under lock and what they touch.  What is abstracted: a memoised method's result is a *reference structure* (which leaf
    objects / storages / metadata it holds), not element values; key order inside results is the heap order.
 
-   [fixes] switches each recorded defect off (the model with [repo] is /repo as it is today). *)
+   [fixes] switches each recorded defect off (the model with [repo] is /repo as it is today, C06 and C05 repairs applied). *)
 From Coq Require Import ZArith List String Bool Arith.
 Import ListNotations.
 Open Scope string_scope.
@@ -608,12 +608,26 @@ Definition clear_parents (s : state) (p : path) : state :=
   upd_nodes s (fun n => if is_prefix p (n_path n) && nkind_eqb (n_kind n) NTD
                         then with_lock n (n_flag n) [] (n_memmap n) (n_cache n) else n).
 
+Record fixes := { fix_rebind : bool;    (* D19/S4/D60: _set_str(ignore_lock=True) under lock erases the caches of the node and of its lock parents *)
+                  fix_meta : bool;      (* D63: the names setter, _erase_names and _change_batch_size do the same when the node is locked *)
+                  fix_memmap : bool;    (* D61: _memmap_(inplace) on a locked node does the same, node by node *)
+                  fix_lockgraph : bool; (* D7 (C05): _memmap_ leaves the flags alone; memmap_() locks its result through
+                                           base._lock_graph = root._propagate_lock(None), whatever the flags are *)
+                  fix_lockflag : bool   (* D55 (C05): lock_ returns early on the stored flag _is_locked, not on the derived is_locked *) }.
+(* /repo with the fix: commits of C06 and of C05 (lock graph) applied *)
+Definition repo : fixes := {| fix_rebind := true; fix_meta := true; fix_memmap := true; fix_lockgraph := true; fix_lockflag := true |}.
+(* /repo before them (the refutations of C06 were stated about this one) *)
+Definition unrepaired : fixes := {| fix_rebind := false; fix_meta := false; fix_memmap := false; fix_lockgraph := false; fix_lockflag := false |}.
+Definition all_fixed : fixes := repo.
+
 Inductive outcome := Done | RaisedLock | RaisedOther | NoSuchTarget.
 
-Definition lock_ (s : state) (p : path) : state * outcome :=
+(* base.py lock_: `if self._is_locked: return self` (D55 repaired; before: `if self.is_locked`, which is the derived lock for a
+   lazy stack whose members were each locked on their own) *)
+Definition lock_ (fx : fixes) (s : state) (p : path) : state * outcome :=
   match find_node s p with
   | None => (s, NoSuchTarget)
-  | Some n => if node_locked s n then (s, Done) else (propagate_lock s p, Done)
+  | Some n => if (if fix_lockflag fx then flag_locked n else node_locked s n) then (s, Done) else (propagate_lock s p, Done)
   end.
 
 Definition unlock_ (s : state) (p : path) : state * outcome :=
@@ -626,15 +640,6 @@ Definition unlock_ (s : state) (p : path) : state * outcome :=
   end.
 
 (* ------------------------------------------------------------------------------------------------ writes *)
-Record fixes := { fix_rebind : bool;    (* D19/S4/D60: _set_str(ignore_lock=True) under lock erases the caches of the node and of its lock parents *)
-                  fix_meta : bool;      (* D63: the names setter, _erase_names and _change_batch_size do the same when the node is locked *)
-                  fix_memmap : bool     (* D61: _memmap_(inplace) on a locked node does the same, node by node *) }.
-(* /repo with the fix: commits of C06 applied *)
-Definition repo : fixes := {| fix_rebind := true; fix_meta := true; fix_memmap := true |}.
-(* /repo before them (the refutations of C06 were stated about this one) *)
-Definition unrepaired : fixes := {| fix_rebind := false; fix_meta := false; fix_memmap := false |}.
-Definition all_fixed : fixes := repo.
-
 (* TensorDictBase._erase_cache_upwards, called by every node whose path satisfies [touched]: the node's own cache and the
    caches of the nodes registered as its lock parents *)
 Definition erase_touched (s : state) (touched : path -> bool) : state :=
@@ -720,7 +725,7 @@ Definition is_node_path (s : state) (p : path) : bool := match find_node s p wit
 
 Definition step (fx : fixes) (hooked : bool) (s : state) (o : op) : state * outcome :=
   match o with
-  | OLock p => lock_ s p
+  | OLock p => lock_ fx s p
   | OUnlock p => unlock_ s p
   | ORead p m args kwargs => match read hooked s p m args kwargs with (s', Some _) => (s', Done) | (s', None) => (s', NoSuchTarget) end
   | OInplace p v =>
@@ -782,11 +787,21 @@ Definition step (fx : fixes) (hooked : bool) (s : state) (o : op) : state * outc
       | _, _ => (s, NoSuchTarget)
       end
   | OMemmap p base =>
+      (* base.py memmap_(): result = self._memmap_(inplace=True, ...); return _lock_graph(result).
+         _td.py _memmap_, node by node down the subtree: a node whose flag is set erases upwards (D61), then _is_memmap = True,
+         device cpu, every plain tensor entry is replaced by a MemoryMappedTensor.  The flags:
+           repaired (D7)   _memmap_ does not touch _is_locked; afterwards _lock_graph runs root._propagate_lock(None) from p
+                           unconditionally: every node of the subtree is flagged (a lazy stack too) and registers the chain of
+                           nodes from p down to it, exactly as lock_() on an unlocked p does; p's own parents are untouched
+           unrepaired      _memmap_ writes dest._is_locked = True on every TensorDict node (a lazy stack keeps its flag), the
+                           lock_() that follows returns early: nobody registers a parent *)
       match find_node s p with
       | None => (s, NoSuchTarget)
       | Some _ =>
           let s1 := {| nodes := map (fun n => if is_prefix p (n_path n)
-                                              then with_lock n (match n_kind n with NTD => Some true | NLAZY => n_flag n end) (n_parents n) true (n_cache n)
+                                              then with_lock n (if fix_lockgraph fx then n_flag n
+                                                                else match n_kind n with NTD => Some true | NLAZY => n_flag n end)
+                                                             (n_parents n) true (n_cache n)
                                               else n) (nodes s);
                        leaves := map (fun ql => if is_prefix p (fst ql) && lkind_eqb (l_kind (snd ql)) KTensor && negb (l_mm (snd ql))
                                                 then (fst ql, {| l_uid := base + l_uid (snd ql); l_kind := KTensor; l_stor := base + l_stor (snd ql);
@@ -797,8 +812,10 @@ Definition step (fx : fixes) (hooked : bool) (s : state) (o : op) : state * outc
                                                     then [(base + l_stor (snd ql), store_get (store s) (l_stor (snd ql)))] else []) (leaves s)
                                 ++ store s |} in
           let s2 := upd_nodes s1 (fun n => if is_prefix p (n_path n) then with_meta n {| m_bs := m_bs (n_meta n); m_names := m_names (n_meta n); m_dev := 1 |} else n) in
-          (* each node of the subtree that was locked already erases upwards before its entries are replaced *)
-          ((if fix_memmap fx then erase_touched s2 (fun x => is_prefix p x && locked_at s x) else s2), Done)
+          (* each node of the subtree that was locked already erases upwards before its entries are replaced (inside _memmap_,
+             i.e. before the lock graph is built: the parents it reaches are those registered before the call) *)
+          let s3 := if fix_memmap fx then erase_touched s2 (fun x => is_prefix p x && locked_at s x) else s2 in
+          ((if fix_lockgraph fx then propagate_lock s3 p else s3), Done)
       end
   | OSetNames p names =>
       match find_node s p with
